@@ -93,6 +93,12 @@ def run(ctx, deep=False):
                     items.append(("steady", sc3))
                     meta.append((st, ("nosub", tuple(cuts))))
                 if rng.random() < 0.15:
+                    # two subscribers: one fails on every frame, the other needs a few loop passes per frame - what the second one has
+                    # handled, in the order it finished, does not depend on the segmentation (nor on the first one's failures)
+                    sc4 = sc[:2] + [("subraise", "msg", 1), ("msgsub2", rng.choice([1, 3, 8]))] + [op for op in sc[2:]]
+                    items.append(("steady", sc4))
+                    meta.append((st, ("two-subs", tuple(cuts))))
+                if rng.random() < 0.15:
                     # the console closes the connection: its FIN arrives together with the last data segment, or a few loop turns / a
                     # pause later; the client reconnects and the console sends the stream again - what is delivered (both copies) does
                     # not depend on where the FIN sits
@@ -112,7 +118,7 @@ def run(ctx, deep=False):
         for (st, cuts), r, (_, script) in zip(meta, results, items):
             if "error" in r:
                 raise RuntimeError("harness failed: %s" % r["error"])
-            ctx.case((gen, st, tuple(cuts or [])) if not (cuts and cuts[0] in ("fin", "nosub")) else (gen, st, cuts), nontrivial=cuts is not None)
+            ctx.case((gen, st, tuple(cuts or [])) if not (cuts and cuts[0] in ("fin", "nosub", "two-subs")) else (gen, st, cuts), nontrivial=cuts is not None)
             if cuts is None:
                 ref[st] = r["delivered"]
                 if model:
@@ -123,6 +129,13 @@ def run(ctx, deep=False):
                         if hm != r["delivered"][0]:
                             ctx.tie_broken("correspondence:parse", "model delivers %s, implementation %s" % (hm[:300], r["delivered"][0][:300]),
                                            stream=st.hex())
+                continue
+            if cuts and cuts[0] == "two-subs":
+                ctx.count("two-subscribers-one-failing-one-slow")
+                if r["handled2"] != ref[st] or r["delivered"] != ref[st]:
+                    if worst is None or len(script) < len(worst[0]):
+                        worst = (script, st, list(cuts[1]) + ["a failing subscriber and a second one that takes a few loop passes per frame: what the second one handled, in the order it finished"],
+                                 r["handled2"] if r["handled2"] != ref[st] else r["delivered"], ref[st])
                 continue
             if cuts and cuts[0] == "nosub":
                 ctx.count("no-subscriber-while-segmented")
